@@ -327,6 +327,86 @@ class Terms:
         return self._truth[name]
 
 
+def _split_args(s):
+    out, depth, cur = [], 0, ''
+    for ch in s:
+        if ch in '([{':
+            depth += 1
+        elif ch in ')]}':
+            depth -= 1
+        if ch == ',' and depth == 0:
+            out.append(cur); cur = ''
+        else:
+            cur += ch
+    out.append(cur)
+    return out
+
+
+def expand_literal(T, lit, depth=0):
+    """alternatives for one literal: if it is a call `helper(args)` / `!helper(args)` of a bool-returning crate function whose truth condition
+    is known, the list of clause literal sets of that condition with the parameters replaced by the argument terms; else [[lit]]"""
+    m = re.fullmatch(r'(!?)([A-Za-z_][\w:]*)\((.*)\)', lit)
+    if not m or depth > 2:
+        return [[lit]]
+    neg, short, args = m.groups()
+    cands = [n for n in T.prog.bodies if (n == short or n.endswith('::' + short)) and T.prog.bodies[n].get('kind') in ('fn', 'assoc') and T.prog.bodies[n].get('ret') == 'bool']
+    if len(cands) != 1:
+        return [[lit]]
+    h = cands[0]
+    try:
+        dnf = (T.falsity_dnf(h) if neg else T.truth_dnf(h))[1]
+    except Exception:
+        dnf = None
+    if not dnf or len(dnf) > 6:
+        return [[lit]]
+    hf = T.prog.fn(h)
+    params = [hf.name_of(k) for k in range(1, hf.argc + 1)]
+    actual = _split_args(args)
+    if len(actual) != len(params):
+        return [[lit]]
+    out = []
+    for clause in dnf:
+        lits = []
+        for l in clause:
+            for p, a in zip(params, actual):
+                l = re.sub(r'(?<![\w.])%s(?![\w])' % re.escape(p), a.replace('\\', '\\\\'), l)
+            lits.append(l)
+        # nested helpers
+        alts = [[]]
+        for l in lits:
+            sub = expand_literal(T, l, depth + 1)
+            alts = [x + y for x in alts for y in sub][:16]
+        out.extend(alts)
+    return out[:16]
+
+
+def expand_dnf(T, dnf):
+    """inline bool helper calls in every clause (distributing their disjunctions)"""
+    if not dnf:
+        return dnf
+    res = []
+    for clause in dnf:
+        alts = [[]]
+        for l in clause:
+            alts = [x + y for x in alts for y in expand_literal(T, l)][:32]
+        res.extend(frozenset(a) for a in alts)
+    return res
+
+
+def literal_alternatives(T, fn, facts):
+    """list of literal sets: fact_literals with bool-helper calls replaced by their conditions; a requirement on the facts must hold for EVERY alternative"""
+    base = fact_literals(T, fn, facts)
+    alts = [set()]
+    for l in base:
+        sub = expand_literal(T, l)
+        if sub == [[l]]:
+            for a in alts:
+                a.add(l)
+        else:
+            alts = [set(a) | set(x) | {l} for a in alts for x in sub][:32]
+    return alts
+
+
 def fact_literals(T, fn, facts):
     """facts dict -> set of literal strings ('TERM', '!TERM', 'TERM=v', 'TERM∉[..]')"""
     out = set()
